@@ -44,6 +44,10 @@ CHECKS = {
   "reference-model monitor: model CMap -> independent writer of the standard file form -> ReadCMap, table-by-table permutation and sortedness check; single-fault variants must be rejected",
   "Model CMaps with any number of blocks of the seven kinds in random order (repeated kinds adjacent and interleaved, 0-100 entries, code lengths 1-4 mixed, destinations of every allowed type, optional usecmap and WMode, several CMaps per file) are written by an independent writer with layout noise; ReadCMap's dictionary must carry the file's name, system info, type and writing mode, and each table of its *CMapInfo must be a permutation of the file's entries that is sorted by source code (code-space ranges by length then code). Every single-fault variant (101 declared entries, declared count one larger than supplied, wrong destination type per kind, bounds of unequal length, reversed range, missing begincmap) must return an error.",
   "Which of several CMaps in a file is returned is C17's clause; C07 compares the returned one against the model of that name."),
+ "C17": ("exploration", "DESIGN.md 11/C17",
+  "repeated-execution monitor: digest equality across repeats in one process and across fresh child processes (new hash seeds)",
+  "Values with many entries in every map the code iterates (fonts with 50-500 glyphs, metrics with several ligatures on many glyphs, CMap files defining 2-6 CMaps registered under shuffled keys with present, missing or shared /CMapName) are pushed through every writer (Font.Write in four formats, WritePDF, Metrics.Write) and reader (type1.Read, afm.Read, ReadCMap, GlyphList) 12-30 times inside one process and once in each of 4-10 freshly started child processes; all digests must agree.",
+  "Digests iterate over sorted keys only. A difference needs at least two entries in some iterated map; value sizes are chosen so that every such map has many."),
 }
 
 NOT_CLAIMED = {}
